@@ -1441,7 +1441,14 @@ func (c *Client) Options(u *base.URL) (*base.Response, error) {
 	}
 }
 
+// maximum number of redirects followed by a single DESCRIBE.
+const clientMaxRedirects = 10
+
 func (c *Client) doDescribe(u *base.URL) (*description.Session, *base.Response, error) {
+	return c.doDescribeInner(u, 0)
+}
+
+func (c *Client) doDescribeInner(u *base.URL, redirectCount int) (*description.Session, *base.Response, error) {
 	err := c.checkState(map[clientState]struct{}{
 		clientStateInitial:   {},
 		clientStatePrePlay:   {},
@@ -1478,6 +1485,10 @@ func (c *Client) doDescribe(u *base.URL) (*description.Session, *base.Response, 
 		if res.StatusCode >= base.StatusMovedPermanently &&
 			res.StatusCode <= base.StatusUseProxy &&
 			len(res.Header["Location"]) == 1 {
+			if redirectCount >= clientMaxRedirects {
+				return nil, nil, fmt.Errorf("too many redirects")
+			}
+
 			c.reset()
 
 			var ru *base.URL
@@ -1497,7 +1508,7 @@ func (c *Client) doDescribe(u *base.URL) (*description.Session, *base.Response, 
 			c.Scheme = ru.Scheme
 			c.Host = ru.Host
 
-			return c.doDescribe(ru)
+			return c.doDescribeInner(ru, redirectCount+1)
 		}
 
 		return nil, res, liberrors.ErrClientBadStatusCode{Code: res.StatusCode, Message: res.StatusMessage}
